@@ -243,3 +243,11 @@ impl Encoder<(RequestId, Tag, MaybeControls)> for LdapCodec {
         Ok(())
     }
 }
+
+#[cfg(ldap3_verif)]
+#[allow(clippy::type_complexity)]
+pub(crate) fn verif_decode(
+    buf: &mut BytesMut,
+) -> Result<Option<(RequestId, (Tag, Vec<Control>))>, io::Error> {
+    decode_inner(buf)
+}
